@@ -337,6 +337,30 @@ def make_fit_glue_harness():
     return harness
 
 
+def make_identity_sequence_harness():
+    """two specifiers parsed one after the other in the same process (as validate_input_paths / parse_inputs do for several inputs): what the
+    second one denotes does not depend on the first, and the first result is not changed by parsing the second"""
+    def harness(eng):
+        import pyimpspec.cli.utility as cu
+        types = {"noise": float, "seed": int, "drift": float}
+        k1 = [k for k in types if eng.choice(2, "first." + k)]
+        k2 = [k for k in types if eng.choice(2, "second." + k)]
+
+        def spec(ident, keys, val):
+            return ident + (":" + ",".join("%s=%s" % (k, val) for k in keys) if keys else "")
+        ok1, r1 = call(cu._parse_identity, spec("CIRCUIT_1", k1, "2"))
+        ok2, r2 = call(cu._parse_identity, spec("CIRCUIT_2", k2, "3"))
+        eng.check(ok1 and ok2, "sequence:both specifiers are parsed", lambda: "%r %r" % (r1, r2))
+        if not (ok1 and ok2):
+            return
+        want1 = ("CIRCUIT_1", {k: types[k]("2") for k in k1})
+        want2 = ("CIRCUIT_2", {k: types[k]("3") for k in k2})
+        eng.check(tuple(r2) == want2, "sequence:the second specifier denotes what it says, whatever was parsed before", lambda: "%r, wanted %r (first: %r)" % (r2, want2, want1))
+        eng.check(tuple(r1) == want1, "sequence:the first result is not changed by parsing the second", lambda: "%r, wanted %r" % (r1, want1))
+        eng.reached("sequence")
+    return harness
+
+
 def make_simulate_glue_harness():
     """cli circuit --simulate: every circuit given on the command line is simulated by the API at the frequencies _interpolate returns for
     [--max-frequency, --min-frequency] and --num-per-decade, the table handed to the formatter is that simulation, and the marked frequencies
@@ -546,6 +570,8 @@ def obligations(tier: str):
     obs.append(Obligation("identity.two", make_identity_harness(2, 1, "data", concrete_values=True),
                           bounds="as identity.data with 0..2 keyword arguments whose values are taken from a list of numerals and non-numerals (%r)" % (CONCRETE_VALUES,),
                           functions=[cu._parse_identity, cu.get_mock_data], stubs=stubs, expect_reach=["identity"], max_paths=2000000))
+    obs.append(Obligation("identity.sequence", make_identity_sequence_harness(), bounds="two specifiers parsed one after the other, each with any subset of the keywords noise / seed / drift",
+                          functions=[cu._parse_identity], stubs=[], expect_reach=["sequence"]))
     for two in (False, True):
         n = (2 if two else 3) if tier == "quick" else (3 if two else 4)
         obs.append(Obligation("parse.%d" % (2 if two else 1), make_parse_harness(n, two),
